@@ -198,6 +198,7 @@ type peer struct {
 	gate           chan struct{}
 	invalidDue     bool // an undecodable framed message was sent: one invalid-message response then EOF
 	pendingPartial *expectation
+	rejected       bool // the server's connect hook refused this connection: it must be closed by the server
 }
 
 func (p *peer) collect() {
@@ -329,7 +330,13 @@ func c08Bubble(c c08Case) (res c08Result) {
 		return c08Result{sig, fmt.Errorf(format, a...)}
 	}
 	ln := memnet.NewListener()
-	srv := kmipserver.NewServer(ln, c08Executor())
+	var rejectNext atomic.Bool
+	srv := kmipserver.NewServer(ln, c08Executor()).WithConnectHook(func(ctx context.Context) (context.Context, error) {
+		if rejectNext.Swap(false) {
+			return ctx, errors.New("connection refused by the connect hook")
+		}
+		return ctx, nil
+	})
 	serveDone := make(chan error, 1)
 	go func() { serveDone <- srv.Serve() }()
 	peers := map[int]*peer{}
@@ -384,6 +391,10 @@ func c08Bubble(c c08Case) (res c08Result) {
 					// a stalled reader cannot observe that the server closed the connection
 					uncertain++
 				}
+			}
+			if timePassed && p.rejected && !closed && !eof {
+				r := fail("rejected-connection-left-open", "step %d conn %d: the connect hook refused the connection but the server never closed it", step, id)
+				return &r
 			}
 			if desync {
 				// after garbage the harness no longer knows where frames start (the garbage may complete a pending
@@ -440,12 +451,21 @@ func c08Bubble(c c08Case) (res c08Result) {
 	for si, s := range c.Steps {
 		p := peers[s.Conn]
 		switch s.Op {
-		case "connect":
+		case "connect", "connect-rejected":
 			if p != nil {
 				continue
 			}
-			if _, err := connect(s.Conn); err != nil {
+			if s.Op == "connect-rejected" {
+				rejectNext.Store(true)
+			}
+			np, err := connect(s.Conn)
+			if err != nil {
 				return fail("connect-refused", "step %d: %v", si, err)
+			}
+			if s.Op == "connect-rejected" {
+				np.mu.Lock()
+				np.rejected, np.desynced = true, true // nothing sent on it is owed an answer
+				np.mu.Unlock()
 			}
 		case "request", "pipeline":
 			if p == nil || ended(p) || p.partial != nil || p.desynced || p.halfClosed || p.invalidDue {
@@ -715,6 +735,11 @@ func drawC08(rt *rapid.T) c08Case {
 			c.Steps = append(c.Steps, c08Step{Conn: nconn, Op: "connect"})
 			nconn++
 		}
+		if rapid.IntRange(0, 11).Draw(rt, "rejected") == 0 {
+			// a connection that the server's connect hook refuses; the client may still send on it
+			c.Steps = append(c.Steps, c08Step{Conn: nconn, Op: "connect-rejected"})
+			nconn++
+		}
 	}
 	if rapid.IntRange(0, 3).Draw(rt, "hook") == 0 {
 		c.HookClose = rapid.IntRange(1, 4).Draw(rt, "hookat")
@@ -728,7 +753,7 @@ func c08NonTrivial(c c08Case) bool {
 	for _, s := range c.Steps {
 		conns[s.Conn] = true
 		switch s.Op {
-		case "garbage", "undecodable", "partial", "halfclose", "stall":
+		case "garbage", "undecodable", "partial", "halfclose", "stall", "connect-rejected":
 			faults++
 		case "close":
 			if s.During {
@@ -751,7 +776,7 @@ func c08NonTrivial(c c08Case) bool {
 
 func TestC08Availability(t *testing.T) {
 	const name = "TestC08Availability"
-	rec := evid.New("C08", name, "state-machine scripts over 1..4+ client connections to a real kmipserver.Server on an in-memory listener inside a testing/synctest bubble (fake clock, quiescence detection): connect, whole request (1..3 items with outcomes ok / typed error / plain error / panic with string|error|int|Stringer|nil / slow honouring or ignoring its context), "+
+	rec := evid.New("C08", name, "state-machine scripts over 1..4+ client connections (some refused by the server's connect hook) to a real kmipserver.Server on an in-memory listener inside a testing/synctest bubble (fake clock, quiescence detection): connect, whole request (1..3 items with outcomes ok / typed error / plain error / panic with string|error|int|Stringer|nil / slow honouring or ignoring its context), "+
 		"pipelined requests, partial message + completion, garbage (random bytes, oversize announcement, nonsense frame, truncated request), correctly framed but undecodable message (9 kinds), half close, close (also while a handler or a response write is in progress), stalled reader, and closing exactly when the response is about to be handed to the write loop (yield-point hook); "+
 		"after every step: responses match the model one-to-one and in order, census of accept/handleConn/readloop/writeloop goroutines never exceeds the number of live connections (per loop kind), a probe connection is served; at the end nothing remains; "+
 		"non-trivial = >= 2 connections and >= 1 fault; distinct by script").Attach(t)
